@@ -1213,8 +1213,15 @@ func (s Subtitles) WriteToSSA(o io.Writer) (err error) {
 		var format = []string{ssaStyleFormatNameName}
 		var styles = make(map[string]*ssaStyle)
 		var styleNames []string
-		for _, s := range s.Styles {
-			var ss = newSSAStyleFromStyle(*s)
+		// Loop through the map in a fixed order as well, otherwise the style that is kept depends on the
+		// iteration order of the map when two entries share the same ID
+		var keys = make([]string, 0, len(s.Styles))
+		for k := range s.Styles {
+			keys = append(keys, k)
+		}
+		sort.Strings(keys)
+		for _, k := range keys {
+			var ss = newSSAStyleFromStyle(*s.Styles[k])
 			styles[ss.name] = ss
 			styleNames = append(styleNames, ss.name)
 		}
